@@ -474,6 +474,12 @@ def handmade_cases(tier):
                                 "method": "average", "outside": None,
                                 "dtype": "uint8", "channels": 1,
                                 "encoding": "raw", "storage": "flat"})
+    # the same descriptions given to the compute_scales console script: a
+    # refused pair must end with a non-zero exit status
+    step = 5 if tier == "quick" else 2
+    for i, c in enumerate(list(out)):
+        if i % step == 0:
+            out.append(dict(c, via_cli=1 + (i // step) % 2))
     return out
 
 
